@@ -16,7 +16,10 @@ code -> spec : what the real code returned - ids as 22-bit limbs, the two inters
                probe and the brute-force bin of every pair with exact lattice arithmetic.
 Python never decides a verdict; it maps abstract <-> concrete and records.
 """
+import os
+import pickle
 import random
+import signal
 from concurrent.futures import ThreadPoolExecutor
 from fractions import Fraction as F
 
@@ -35,10 +38,10 @@ DEPTHS = list(range(0, MAXDEPTH + 1))
 
 BOUNDS = {
     "quick": dict(Scope="q", FullDepth=3, Levels=1, MaxN1=1, MaxN2=2,
-                  n_random_pts=1500, n_rs_pts=120, cover_conc=6, cover_rand=160, cover_rs_rand=40, cover_star=400, pairs_star=300, HistN2=1, HistCalls=2, hist_rand=150, hist_rs_rand=50,
+                  n_random_pts=1500, n_rs_pts=120, cover_conc=6, cover_rand=160, cover_rs_rand=40, cover_star=400, pairs_star=300, HistN2=1, HistCalls=2, hist_rand=150, hist_rs_rand=50, reps_per_row=2,
                   pairs_rand=500, pairs_rs_rand=200, cap_cover=2e5, cap_pairs=3e4, cap_span=2e4),
     "thorough": dict(Scope="t", FullDepth=5, Levels=2, MaxN1=1, MaxN2=2,
-                     n_random_pts=40000, n_rs_pts=414, cover_conc=8, cover_rand=3000, cover_rs_rand=500, cover_star=5000, pairs_star=3000, HistN2=1, HistCalls=3, hist_rand=2500, hist_rs_rand=800,
+                     n_random_pts=40000, n_rs_pts=414, cover_conc=8, cover_rand=3000, cover_rs_rand=500, cover_star=5000, pairs_star=3000, HistN2=1, HistCalls=3, hist_rand=2500, hist_rs_rand=800, reps_per_row=12,
                      pairs_rand=6000, pairs_rs_rand=3000, cap_cover=2e6, cap_pairs=6e4, cap_span=6e4),
 }
 LIST_MAX = 48          # intersect lists up to this length are written out and re-projected by TLC
@@ -626,6 +629,229 @@ def rand_pairs_cases(rng, n, lat, rs_pts):
 
 
 # =====================================================================================
+# representations of the arguments (HtmIdsMC part "reps": one exported row = who is handed over how)
+def isolated(fn, arg):
+    """fn(arg) in a forked child.  A crash of the interpreter (the C layer reading an array it did not convert)
+    is an observation - ("crash", signal) - not the end of the check."""
+    r, w = os.pipe()
+    pid = os.fork()
+    if pid == 0:
+        code = 0
+        try:
+            os.close(r)
+            try:
+                out = pickle.dumps(("ok", fn(arg)))
+            except BaseException as e:  # noqa
+                out = pickle.dumps(("exc", _ename(e)))
+            with os.fdopen(w, "wb") as f:
+                f.write(out)
+        except BaseException:  # noqa
+            code = 3
+        os._exit(code)
+    os.close(w)
+    with os.fdopen(r, "rb") as f:
+        data = f.read()
+    _, status = os.waitpid(pid, 0)
+    if os.WIFSIGNALED(status):
+        return ("crash", signal.Signals(os.WTERMSIG(status)).name)
+    if not data:
+        return ("crash", "exit %d" % os.WEXITSTATUS(status))
+    return pickle.loads(data)
+
+
+WHOLE_RA = [0.0, 1.0, 10.0, 37.0, 45.0, 89.0, 90.0, 91.0, 135.0, 180.0, 222.0, 270.0, 300.0, 359.0, 360.0]
+WHOLE_DEC = [0.0, 1.0, -1.0, 5.0, -17.0, 30.0, 45.0, -45.0, 60.0, 89.0, -89.0, 90.0, -90.0]
+
+
+def rep_lookup_positions(row, rng):
+    odd = row["odd"][1]
+    n = 1 if odd in hl.N1_ONLY else 12
+    if odd in hl.NEEDS_WHOLE:
+        return [(rng.choice(WHOLE_RA), rng.choice(WHOLE_DEC)) for _ in range(n)]
+    out = []
+    for _ in range(n):
+        k = rng.random()
+        if k < 0.5:
+            out.append((rng.uniform(0.0, 360.0), float(np.degrees(np.arcsin(rng.uniform(-1.0, 1.0))))))
+        elif k < 0.8:
+            out.append((rng.choice(WHOLE_RA), rng.choice(WHOLE_DEC)))
+        else:
+            out.append(hl.gc_point(rng.choice(hl.CIRCLES), hl.EPS["1e-3"], (rng.randrange(360), rng.randrange(-2, 3))))
+    return out
+
+
+def _rep_lookup_child(job):
+    reps = dict(map(tuple, job["row"]["row"]))
+    ra = hl.represent([q[0] for q in job["pts"]], reps["ra"])
+    dec = hl.represent([q[1] for q in job["pts"]], reps["dec"])
+    out = []
+    for d in DEPTHS:
+        res = np.asarray(htm(d).lookup_id(ra, dec)).ravel()
+        if res.size != len(job["pts"]):
+            raise ValueError("shape")
+        out.append([int(v) for v in res])
+    return out
+
+
+def run_rep_lookup(job):
+    """array call in the row's representation (isolated) against scalar calls with the very same numbers"""
+    pts = job["pts"]
+    st, val = isolated(_rep_lookup_child, job)
+    err = "none" if st == "ok" else "CRASH" if st == "crash" else val
+    out = []
+    for k, (r, dc) in enumerate(pts):
+        rec = {"kind": "lookup", "err": err, "depths": DEPTHS, "ids": [], "sids": [], "rep": job["row"]["row"]}
+        if err == "none":
+            rec["ids"] = [hl.limbs(val[i][k]) for i in range(len(DEPTHS))]
+            rec["sids"] = [hl.limbs(np.asarray(htm(d).lookup_id(r, dc)).ravel()[0]) for d in DEPTHS]
+        out.append((rec, {"ra": r, "dec": dc, "layout": "rep", "crash": val if st == "crash" else None}))
+        if err != "none":
+            break                       # one record says it all
+    return out
+
+
+def rep_pairs_problem(row, rng, rs_pts):
+    """a pair-count problem whose numbers survive the row's representations"""
+    arg, x, _ = row["odd"]
+    n1 = 1 if (x in hl.N1_ONLY and arg in ("ra1", "dec1", "scale")) else rng.choice([2, 3])
+    n2 = 1 if (x in hl.N1_ONLY and arg in ("ra2", "dec2", "htmid2")) else rng.choice([4, 6])
+    if arg == "scale" and x in hl.NEEDS_WHOLE:
+        edges = rng.choice([[[24, 25], [3, 5]], [[4, 5], [0, 1]], [[24, 25], [1, 2]]])
+        c = {"kind": "pairs", "lat": "rs", "p1": [list(rng.choice(rs_pts)) for _ in range(n1)],
+             "p2": [list(rng.choice(rs_pts)) for _ in range(n2)], "edges": edges, "scale": [rng.choice([1, 2]) for _ in range(n1)]}
+        return c, {"circle": 0, "eps": "-", "unit": 6}
+    A = [0, 1, 2, 3, 5, 10, 20, 30, 45, 60, 89, 90]
+    base, rho, nbin = rng.choice([((1, 1), 3, 3), ((2, -1), 2, 4), ((1, -1), 5, 2), ((5, 1), 3, 2), ((10, -1), 2, 3)])
+    edges = [[base[0] * rho ** k, base[1] * rho ** k] for k in range(1, nbin + 2)]
+    c = {"kind": "pairs", "lat": "gc", "p1": [[rng.choice(A), 0] for _ in range(n1)], "p2": [[rng.choice(A), 0] for _ in range(n2)],
+         "edges": edges, "scale": [rng.choice([1, 2, 3]) for _ in range(n1)]}
+    # circles on which whole arcs are whole coordinates: the equator and the meridians 0 / 90
+    return c, {"circle": rng.choice([0, 1, 3]), "eps": "1e-3", "unit": rng.choice([1, 2])}
+
+
+def _rep_pairs_child(a):
+    depth, rmin, rmax, nbin, vals, reps = a
+    args = {k: hl.represent(vals[k], reps[k], index=k in ("htmid2", "htmrev2")) for k in vals}
+    res = htm(depth).bincount(rmin, rmax, nbin, args["ra1"], args["dec1"], args["ra2"], args["dec2"], scale=args["scale"],
+                              htmid2=args["htmid2"], htmrev2=args["htmrev2"], minid=min(vals["htmid2"]), maxid=max(vals["htmid2"]))
+    return [int(v) for v in np.asarray(res[2]).ravel()]
+
+
+def run_rep_pairs(job):
+    import esutil.stat
+    c, conc, row = job["abs"], job["conc"], job["row"]
+    lat = c["lat"]
+    eps = hl.EPS[conc["eps"]] if lat == "gc" else None
+    ra1, dec1 = hl.points(lat, c["p1"], hl.CIRCLES[conc["circle"]], eps)
+    ra2, dec2 = hl.points(lat, c["p2"], hl.CIRCLES[conc["circle"]], eps)
+    rmin, rmax, nbin, sc = hl.bin_args(lat, c["edges"], c["scale"], eps, conc["unit"])
+    ds = _allowed_depths(ra1, ra2, dec2, hl.max_angle_deg(lat, c["edges"], c["scale"], eps), job["cap_pairs"], job["cap_span"])
+    depth = ds[job["pick"] % len(ds)]
+    h = htm(depth)
+    obs = []
+    o = {"var": "plain@%d" % depth, "err": "none", "counts": []}
+    try:
+        o["counts"] = [int(v) for v in np.asarray(h.bincount(rmin, rmax, nbin, np.array(ra1), np.array(dec1), np.array(ra2), np.array(dec2),
+                                                             scale=np.array(sc))[2]).ravel()]
+        ids = h.lookup_id(np.array(ra2), np.array(dec2))
+        rev = esutil.stat.histogram(ids - ids.min(), rev=True)[1]
+    except Exception as e:  # noqa
+        o["err"] = _ename(e)
+    obs.append(o)
+    if o["err"] == "none":
+        vals = {"ra1": ra1, "dec1": dec1, "ra2": ra2, "dec2": dec2, "scale": sc, "htmid2": [int(v) for v in ids], "htmrev2": [int(v) for v in rev]}
+        st, val = isolated(_rep_pairs_child, (depth, rmin, rmax, nbin, vals, dict(map(tuple, row["row"]))))
+        obs.append({"var": "rep@%d" % depth, "err": "none" if st == "ok" else "CRASH" if st == "crash" else val,
+                    "counts": val if st == "ok" else [], "rep": row["row"]})
+    rec = {"kind": "pairs", "lat": lat, "p1": c["p1"], "p2": c["p2"], "edges": c["edges"], "scale": c["scale"], "obs": obs}
+    return rec, {"rmin": rmin, "rmax": rmax, "nbin": nbin, "scale_arg": sc, "layout": "rep"}
+
+
+def _rep_cover_child(a):
+    depth, args = a
+    h = htm(depth)
+    incl = np.asarray(h.intersect(*args))
+    full = np.asarray(h.intersect(*args, inclusive=False))
+    return incl, full
+
+
+def run_rep_cover(job):
+    """a star circle around a whole-degree centre, the three doubles of intersect handed over as the row says"""
+    c, star, row = job["abs"], job["star"], job["row"]
+    eps = hl.EPS[job["eps"]]
+    cra, cdec = star["centre"]
+    pra, pdec = hl.star_points(star["centre"], star["dirs"], c["probes"], eps)
+    r = hl.radius_deg("gc", c["rad"], eps)
+    d = job["depth"]
+    rec = {"kind": "cover", "lat": "gc", "err": "none", "depth": d, "c": c["c"], "rad": c["rad"], "probes": c["probes"],
+           "cid": [-1, 0, 0], "pid": [], "listed": False, "incl": [], "full": [], "cin": False, "pin": [], "pfull": [], "rep": row["row"]}
+    meta = {"ra": cra, "dec": cdec, "radius": r, "nincl": -1, "nfull": -1}
+    reps = dict(map(tuple, row["row"]))
+    try:
+        args = (hl.represent_scalar(cra, reps["c_ra"]), hl.represent_scalar(cdec, reps["c_dec"]), hl.represent_scalar(r, reps["c_radius"]))
+        st, val = isolated(_rep_cover_child, (d, args))
+        if st != "ok":
+            rec["err"] = "CRASH" if st == "crash" else val
+        else:
+            incl, full = val
+            h = htm(d)
+            cid = np.asarray(h.lookup_id(cra, cdec)).ravel()[0]
+            pid = np.asarray(h.lookup_id(np.array(pra), np.array(pdec)))
+            want = np.unique(np.append(pid, cid))
+            in_incl = set(incl[np.isin(incl, want)].tolist())
+            in_full = set(full[np.isin(full, want)].tolist())
+            rec.update(cid=hl.limbs(cid), pid=[hl.limbs(v) for v in pid], cin=int(cid) in in_incl,
+                       pin=[int(v) in in_incl for v in pid], pfull=[int(v) in in_full for v in pid])
+            meta["nincl"], meta["nfull"] = int(incl.size), int(full.size)
+    except Exception as e:  # noqa
+        rec["err"] = _ename(e)
+    return rec, meta
+
+
+def rep_jobs(rows, per_row, rng, B, rs_pts):
+    jl, jp, jc = [], [], []
+    for row in rows:
+        for _ in range(per_row):
+            if row["entry"] == "lookup_id":
+                jl.append({"row": row, "pts": rep_lookup_positions(row, rng)})
+            elif row["entry"] == "bincount":
+                c, conc = rep_pairs_problem(row, rng, rs_pts)
+                jp.append({"row": row, "abs": c, "conc": conc, "pick": rng.randrange(1 << 20), "cap_pairs": B["cap_pairs"], "cap_span": B["cap_span"]})
+            else:
+                (c, star), = rand_star_cover(rng, 1)
+                star["centre"] = [rng.choice(WHOLE_RA), rng.choice(WHOLE_DEC)]
+                job = {"row": row, "abs": c, "star": star, "eps": "1e-3"}
+                ds = cover_depths(c, "1e-3", B["cap_cover"] / 10)
+                if hl.gc_half(c["rad"], hl.EPS["1e-3"]) < F(1, 10 ** 4) or not ds:
+                    continue
+                job["depth"] = rng.choice(ds)
+                jc.append(job)
+    return jl, jp, jc
+
+
+def _rep_class(entry, odd, clause):
+    """coarse signature parts of a representation failure: what went wrong | which kind of argument = which kind of representation"""
+    arg, x = odd[0], odd[1]
+    grp = {"ra": "coord", "dec": "coord", "ra1": "coord", "dec1": "coord", "ra2": "coord", "dec2": "coord",
+           "c_ra": "centre", "c_dec": "centre", "c_radius": "radius"}.get(arg, arg)
+    if x in ("strided", "recfield12", "recfield20", "reversed"):
+        x = "non_contiguous"
+    elif arg == "htmrev2" and x in ("be", "i4", "u8", "list", "tuple", "twod_row"):
+        x = "not_native_int64_1d"
+    if clause in ("interpreter_crash", "unexpected_error"):
+        what = clause
+    elif entry == "lookup_id":
+        what = "wrong_ids"
+    elif entry == "bincount":
+        what = "wrong_counts"
+    else:
+        what = clause
+    return what, "%s=%s" % (grp, x)
+
+
+
+
+# =====================================================================================
 # judging
 def _cover_class(rec, meta):
     return "radius_" + ("small" if meta["radius"] < 0.01 else "above_90" if meta["radius"] > 90 else "large" if meta["radius"] > 45 else "mid")
@@ -658,7 +884,15 @@ def judge(ctx, items, what):
         if mach:
             raise MachineryError("trace record %d (%s) is malformed: %s %s" % (rid, rec["kind"], mach, str(rp)[:400]))
         for cl in failing:
-            if rec["kind"] == "lookup":
+            if rp.get("part") == "reps":
+                odd = rp["job"]["row"]["odd"]
+                entry = rp["job"]["row"]["entry"]
+                sig = "%s|%s|rep:%s" % ((entry,) + _rep_class(entry, odd, cl))
+                msg = ("%s with its arguments handed over as %s (all of them carry exactly the numbers of the plain call): clause %s; %s" % (
+                    entry, rp["job"]["row"]["row"], cl,
+                    [(o["var"], o["err"], o["counts"]) for o in rec["obs"]] if rec["kind"] == "pairs" else
+                    {"err": rec["err"], "ra": meta.get("ra"), "dec": meta.get("dec")}))
+            elif rec["kind"] == "lookup":
                 sig = "lookup_id|%s|%s" % (cl, hl.pos_class(meta["ra"], meta["dec"]))
                 msg = "lookup_id ids over depths 0..20 not allowed by HtmIds.tla: clause %s at ra=%r dec=%r" % (cl, meta["ra"], meta["dec"])
             elif rec["kind"] == "cover":
@@ -757,6 +991,9 @@ def run(ctx):
         dict(what="hist rs: (Overwrite ; Bincount)* on one object, every call equals brute force on its own contents",
              cfg_text=cfg(constants=_consts(histB, Part="hist", Lat="rs"), invariants=["HistMechRefines"]),
              workers=4, require=["HStart", "HOverwrite", "HBincount"], timeout=3000),
+        dict(what="reps: covering design of argument representations (entry point x argument x representation x partner)",
+             cfg_text=cfg(constants=_consts(small, Part="reps"), invariants=["RepDesignOK", "RepRowSane"]),
+             workers=2, require=["ChooseRep"], timeout=600),
     ]
     n_main = len(jobs)
     selftests = [("hist", "stale_cache", "HistMechRefines"), ("ids", "miss_level", "IdsMechRefines"), ("cover", "no_inner_test", "CoverMechRefines"),
@@ -775,6 +1012,8 @@ def run(ctx):
     exports += [dict(what="export bincount histories %s" % lat,
                      cfg_text=cfg(constants=_consts(histB, Part="hist", Lat=lat, DoExport=True), next_="NextExport", constraints=["Export"]),
                      workers=1, coverage=False, timeout=3000) for lat in ("gc", "rs")]
+    exports.append(dict(what="export representation rows", cfg_text=cfg(constants=_consts(small, Part="reps", DoExport=True), next_="NextExport",
+                                                                    constraints=["Export"]), workers=1, coverage=False, timeout=600))
     if want("mc"):
         res = _tlc_batch(ctx, jobs)
         for (part, dev, inv), r in zip(selftests, res[n_main:]):
@@ -785,7 +1024,8 @@ def run(ctx):
     cover_cases = [c for c in cases if c["kind"] == "cover"]
     pairs_cases = [c for c in cases if c["kind"] == "pairs"]
     hist_cases = [c for c in cases if c["kind"] == "history"]
-    if not cover_cases or not pairs_cases or not hist_cases or {c["lat"] for c in cases} != {"gc", "rs"}:
+    rep_rows = [c for c in cases if c["kind"] == "reps"]
+    if not cover_cases or not pairs_cases or not hist_cases or not rep_rows or {c["lat"] for c in cases if "lat" in c} != {"gc", "rs"}:
         raise MachineryError("no cases exported (%d circles, %d pair problems)" % (len(cover_cases), len(pairs_cases)))
 
     ctx.note(star_mapping_worst_deviation_deg=_check_star_mapping(ctx.seed))
@@ -882,6 +1122,27 @@ def run(ctx):
         items_probe["history"] = next((it for it in items if it[0]["id"] not in rej and len(it[0]["calls"]) >= 2
                                        and all(o["err"] == "none" for cl in it[0]["calls"] for o in cl["obs"])), None)
 
+    # ---- 4c. representations: every exported row of the covering design, replayed on a few problems each -------------
+    n_reps = 0
+    if want("reps"):
+        jl, jp, jc = rep_jobs(rep_rows, B["reps_per_row"], rng, B, rs_pts)
+        items = []
+        for job, out in zip(jl, pmap(run_rep_lookup, jl)):
+            items += [(rec, meta, {"part": "reps", "job": job}) for rec, meta in out]
+        for job, (rec, meta) in zip(jp, pmap(run_rep_pairs, jp)):
+            items.append((rec, meta, {"part": "reps", "job": job}))
+        for job, (rec, meta) in zip(jc, pmap(run_rep_cover, jc)):
+            items.append((rec, meta, {"part": "reps", "job": job}))
+        for rec, meta, rp in items:
+            ctx.count({"row": rp["job"]["row"]["row"], "entry": rp["job"]["row"]["entry"], "case": rp["job"].get("pts") or rp["job"].get("abs")})
+        n_ok = sum(1 for rec, _, _ in items if (rec.get("err", "none") == "none" and all(o["err"] == "none" for o in rec.get("obs", []))))
+        rej = judge(ctx, items, "judge representation rows (HtmIdsTrace)")
+        n_reps = len(items)
+        seen = {(rp["job"]["row"]["entry"], tuple(rp["job"]["row"]["odd"])) for _, _, rp in items}
+        if len(seen) < len(rep_rows) or n_ok < len(items) // 2:
+            raise MachineryError("representation rows not exercised: %d of %d rows, %d of %d calls returned" % (len(seen), len(rep_rows), n_ok, len(items)))
+        ctx.note(representation_rows=len(rep_rows), representation_records=n_reps, representation_calls_returned=n_ok)
+
     # ---- 5. binding self-test: one corrupted observation per kind must be rejected, its original accepted ----
     import copy
     probe = []
@@ -936,12 +1197,14 @@ def run(ctx):
                 "also off-lattice, centres with probes on 8..24 rays), 37..414 probes each (%d circle records); pair counts: every (p2, p1, bins, scale) exported from HtmIdsMC.tla for |p2|<=%d, |p1|<=%d or "
                 "p1=p2 on both lattices + %d seeded problems up to 10 x 30 points (of which %d one-to-many around arbitrary centres; %d problems, 4 ways "
                 "of calling each); histories: every (Overwrite ; Bincount)^%d of HtmIdsMC.tla part hist + %d seeded histories of 3..5 calls on one "
-                "HTM object with the same ndarray objects overwritten in place (%d histories); a case "
+                "HTM object with the same ndarray objects overwritten in place (%d histories); representations: every row of the covering "
+                "design of HtmIdsMC.tla part reps (entry point x argument x 7..16 representations x contiguous/strided partner, %d rows) x %d "
+                "problems; a case "
                 "is distinct by its abstract record + concretisation" %
                 (len(hl.CIRCLES), B["n_random_pts"], n_lookup, B["Scope"], B["cover_conc"], B["cap_cover"],
                  B["cover_rand"] + B["cover_rs_rand"] + B["cover_star"], B["cover_star"], n_cover, B["MaxN2"], B["MaxN1"],
                  B["pairs_rand"] + B["pairs_rs_rand"] + B["pairs_star"], B["pairs_star"], n_pairs,
-                 B["HistCalls"], B["hist_rand"] + B["hist_rs_rand"], n_hist))
+                 B["HistCalls"], B["hist_rand"] + B["hist_rs_rand"], n_hist, len(rep_rows), B["reps_per_row"]))
     ctx.exhaustive = True
     ctx.note(bounds={k: v for k, v in B.items()}, exported_circles=len(cover_cases), exported_pair_problems=len(pairs_cases),
              lookup_positions=n_lookup, circle_records=n_cover, pair_records=n_pairs, history_records=n_hist, exported_histories=len(hist_cases))
@@ -972,6 +1235,15 @@ def replay(ctx, case):
     elif part == "cover":
         rec, meta = run_cover(case["job"])
         items = [(rec, meta, {"part": "cover", "job": case["job"]})]
+    elif part == "reps":
+        job = case["job"]
+        e = job["row"]["entry"]
+        if e == "lookup_id":
+            job = dict(job, pts=[tuple(q) for q in job["pts"]])
+            items = [(rec, meta, {"part": "reps", "job": case["job"]}) for rec, meta in run_rep_lookup(job)]
+        else:
+            rec, meta = (run_rep_pairs if e == "bincount" else run_rep_cover)(job)
+            items = [(rec, meta, {"part": "reps", "job": case["job"]})]
     elif part == "history":
         job = dict(case["job"])
         if isinstance(job["unit"], str):
